@@ -325,7 +325,7 @@ pub fn call<'a>(it: &mut Interp<'a>, name: &'static str, pos: Vec<Th<'a>>, named
 			let f = want_fn(&arg!(0), "map func")?;
 			let a = match arg!(1) {
 				Val::Arr(a) => a,
-				Val::Str(s) if name == "map" => Rc::new(s.chars().map(|c| done(Val::str(c.to_string()))).collect()),
+				Val::Str(s) => Rc::new(s.chars().map(|c| done(Val::str(c.to_string()))).collect()),
 				other => return err("type", format!("{name} over {}", other.type_name())),
 			};
 			let with_index = name == "mapWithIndex";
@@ -573,7 +573,8 @@ pub fn call<'a>(it: &mut Interp<'a>, name: &'static str, pos: Vec<Th<'a>>, named
 				}
 				Val::Str(s) => {
 					let x = want_str(&x, "member needle")?;
-					Ok(Val::Bool(s.contains(&*x)))
+					// member(str, x) = length(findSubstr(x, str)) > 0, and findSubstr yields [] for an empty pattern
+					Ok(Val::Bool(!x.is_empty() && s.contains(&*x)))
 				}
 				other => err("type", format!("member of {}", other.type_name())),
 			}
@@ -702,9 +703,25 @@ pub fn call<'a>(it: &mut Interp<'a>, name: &'static str, pos: Vec<Th<'a>>, named
 				None => None,
 			};
 			let kx = key_of(it, &keyf, &x)?;
-			for v in force_all(it, &a)? {
-				let k = key_of(it, &keyf, &v)?;
-				if it.equals(&k, &kx)? {
+			let items = force_all(it, &a)?;
+			let mut keys = Vec::new();
+			for v in &items {
+				keys.push(key_of(it, &keyf, v)?);
+			}
+			// binary search in the definition: only defined on sets whose keys are comparable with the needle's
+			for w in keys.windows(2) {
+				match it.compare(&w[0], &w[1]) {
+					Ok(Ordering::Less) => {}
+					_ => return err("unsure", "setMember on a non-set"),
+				}
+			}
+			for k in &keys {
+				if it.compare(k, &kx).is_err() {
+					return err("unsure", "setMember with an incomparable key");
+				}
+			}
+			for k in &keys {
+				if it.equals(k, &kx)? {
 					return Ok(Val::Bool(true));
 				}
 			}
@@ -731,14 +748,19 @@ pub fn call<'a>(it: &mut Interp<'a>, name: &'static str, pos: Vec<Th<'a>>, named
 			}
 			for ks in [&ak, &bk] {
 				for w in ks.windows(2) {
-					if it.compare(&w[0], &w[1])? != Ordering::Less {
-						return err("unsure", "set operation on a non-set");
+					match it.compare(&w[0], &w[1]) {
+						Ok(Ordering::Less) => {}
+						_ => return err("unsure", "set operation on a non-set"),
 					}
 				}
 			}
-			// mixed key types between the two sides
-			if let (Some(x), Some(y)) = (ak.first(), bk.first()) {
-				it.compare(x, y)?;
+			// mixed key types between the two sides: which comparison fails first is implementation-defined
+			for x in &ak {
+				for y in &bk {
+					if it.compare(x, y).is_err() {
+						return err("unsure", "set operation on sets with incomparable keys");
+					}
+				}
 			}
 			let mut out = Vec::new();
 			let (mut i, mut j) = (0, 0);
